@@ -761,6 +761,18 @@ func genC03(repo string) (string, error) {
 	fmt.Fprintf(&sb, "def afterAddCheck : String := %s\n", strconv.Quote(findIfCond(FindFunc(cj, "compactFlusher", "afterAdd"), "maxFileSize")))
 	fmt.Fprintf(&sb, "def doMergeCalls : List String := %s\n", LeanStrList(CallSeq(FindFunc(cj, "compactJob", "doMerge"))))
 	fmt.Fprintf(&sb, "def installCalls : List String := %s\n", LeanStrList(CallSeq(FindFunc(cj, "compactJob", "installCompactionResults"))))
+	// round 10: opening the inputs of a merge job (makeInputIterator) and the error propagation of doMerge
+	mii := FindFunc(cj, "compactJob", "makeInputIterator")
+	miiTree := ifTreeRet(mii)
+	miiExits := loopExits(mii)
+	fmt.Fprintf(&sb, "/-- `compactJob.makeInputIterator`: its if-tree, the statements that leave one of its loops early, its calls;\n`openErrorAborts`: the error branch of `GetReader` is `return nil, err` and nothing else leaves a loop (no input is skipped) -/\n")
+	fmt.Fprintf(&sb, "def makeInputIteratorIfTree : List String := %s\n", LeanStrList(miiTree))
+	fmt.Fprintf(&sb, "def makeInputIteratorLoopExits : List String := %s\n", LeanStrList(miiExits))
+	fmt.Fprintf(&sb, "def makeInputIteratorCalls : List String := %s\n", LeanStrList(CallSeq(mii)))
+	openAborts := len(miiExits) == 1 && miiExits[0] == "return" && len(miiTree) == 2 && miiTree[1] == "1:err != nil -> return nil, err"
+	fmt.Fprintf(&sb, "def openErrorAborts : Bool := %v\n", openAborts)
+	fmt.Fprintf(&sb, "/-- `compactJob.doMerge`: every `if` with the last statement of its body (each error is returned) -/\n")
+	fmt.Fprintf(&sb, "def doMergeIfTree : List String := %s\n", LeanStrList(ifTreeRet(FindFunc(cj, "compactJob", "doMerge"))))
 	_, vv, err := ParseFile(repo, "kv/version/version.go")
 	if err != nil {
 		return "", err
